@@ -47,6 +47,7 @@ structure Obs where
   held : List Held := []
   ctr : String := "ok"
   ns : Nat := 0
+  reg : List Nat := []      -- stream ids registered in the association's table
   accq : Nat := 0
   abort : Bool := false
   state : Nat := 0
@@ -76,7 +77,9 @@ def parseHeld (s : String) : List Held :=
 def parseObs (toks : List String) : Obs :=
   { cum := kvn toks "cum", size := kvn toks "size", gaps := parseGaps (kvs toks "gaps"), dups := kvn toks "dups",
     ack := kvs toks "ack", timer := kvs toks "timer" == "1", rwnd := kvn toks "rwnd", held := parseHeld (kvs toks "held"),
-    ctr := kvs toks "ctr", ns := kvn toks "ns", accq := kvn toks "accq", abort := kvs toks "abort" == "1",
+    ctr := kvs toks "ctr", ns := kvn toks "ns",
+    reg := (let v := kvs toks "reg"; if v == "-" || v == "" then [] else (v.splitOn ",").map (·.toNat?.getD 0)),
+    accq := kvn toks "accq", abort := kvs toks "abort" == "1",
     state := kvn toks "state", now := kvn toks "now",
     noNow := " ".intercalate (toks.filter (fun t => !t.startsWith "now=")) }
 
@@ -127,6 +130,7 @@ structure St where
   lastSrtt : String := "0"
   d13Reported : Bool := false                 -- the D13 form of the credit mismatch is reported once per sequence
   lost : Bool := false                        -- a packet the predicates cannot interpret was processed (raw, parsed)
+  resetIds : List Nat := []                   -- stream ids named by the reset requests of this sequence
   aborted : Bool := false                     -- the endpoint raised an ABORT at some point of this sequence (sticky)
   deriving Inhabited
 
@@ -276,11 +280,30 @@ def checkStep (st : St) (op impl : List String) (pre post : Obs) : St × List St
           out := out ++ [s!"[C03,C05] a FORWARD-TSN at or behind the cumulative point ({c} vs {pre.cum}) changed the receive state"]
         if post.ack != "imm" then out := out ++ ["[C03,C19] a stale FORWARD-TSN did not force an immediate acknowledgement"]
       else
-        st := { st with g := st.g.skip (BitVec.ofNat 32 c) }
-        if serialLT st.hi c then st := { st with hi := c }
-        if serialLT post.cum c then out := out ++ [s!"[C07,C05] after FORWARD-TSN {c} the cumulative point is still {post.cum}"]
-        if !(post.ack == "imm" || (post.ack == "delay" && post.timer)) then
-          out := out ++ ["[C19] a FORWARD-TSN that moved the cumulative point is not going to be acknowledged"]
+        -- the streams the chunk names
+        let listed : List Nat := match op with
+          | [_, _, es] => if es == "none" then [] else (es.splitOn ",").map fun e => ((e.splitOn "/").headD "0").toNat?.getD 0
+          | _ => []
+        -- a stream named in a reset request may be deleted again by the pop loop of this very chunk
+        let missingAll := listed.filter fun si => !post.reg.contains si
+        let missing := missingAll.filter fun si => !st.resetIds.contains si
+        if !serialLT post.cum c then
+          -- taken: the cumulative point moved; then every listed stream must exist, or its skip is lost (D23)
+          st := { st with g := st.g.skip (BitVec.ofNat 32 c) }
+          if serialLT st.hi c then st := { st with hi := c }
+          if !missing.isEmpty then
+            out := out ++ [s!"[C07] FORWARD-TSN {c} was taken (cumulative point {post.cum}) although stream(s) {missing} it names are not registered: the skip of those streams is lost"]
+          if !(post.ack == "imm" || (post.ack == "delay" && post.timer)) then
+            out := out ++ ["[C19] a FORWARD-TSN that moved the cumulative point is not going to be acknowledged"]
+        else
+          -- not taken: only because a named stream could not be created (accept backlog full); then nothing else changed
+          if missingAll.isEmpty || post.accq < 16 then
+            out := out ++ [s!"[C07,C05] after FORWARD-TSN {c} the cumulative point is still {post.cum}"]
+          if !(pre.cum == post.cum && pre.size == post.size && pre.gaps == post.gaps && pre.held == post.held
+               && pre.rwnd == post.rwnd && pre.abort == post.abort && pre.ack == post.ack && pre.timer == post.timer) then
+            out := out ++ [s!"[C07,C03] a FORWARD-TSN that was dropped (stream(s) {missingAll} cannot be created) changed the receive state"]
+  | ["reset", _, _, ids] =>
+    if ids != "none" then st := { st with resetIds := st.resetIds ++ (ids.splitOn ",").map (·.toNat?.getD 0) }
   | ["hb", info] => st := { st with hbs := st.hbs ++ [info] }
   | ["hback", arg] =>
     let srtt := kvs impl "srtt"
@@ -437,9 +460,13 @@ def step (st : St) (op impl : List String) : St × List String :=
     let (st2, v2) := checkAlways st1 post
     -- once the endpoint has raised an ABORT (an earlier step of this sequence) it is about to close: what it does with
     -- further input until the write loop sends the ABORT is outside every property's premise (the step that raises the
-    -- ABORT is still judged)
+    -- ABORT is still judged). Two things stay judged: a panic, and what `gather` emits when the ABORT is due (exactly the
+    -- ABORT with the protocol-violation cause, and the order to close)
+    let has (m sub : String) : Bool := (m.splitOn sub).length > 1
+    let isGather := match st.pending with | some (["gather"], _) => true | _ => false
+    let late := v1.filter fun m => has m "panicked" || (isGather && has m "ABORT")
     ({ st2 with obs := post, haveObs := true, pending := none, aborted := st2.aborted || post.abort },
-      if st.aborted then [] else v1 ++ v2)
+      if st.aborted then late else v1 ++ v2)
   | _ => ({ st with pending := some (op, impl) }, [])
 
 end ReceiverSpec
